@@ -30,7 +30,7 @@ func (i JsUInt64) MarshalJSON() ([]byte, error) {
 // unmarshal json
 func (i *JsUInt64) UnmarshalJSON(b []byte) error {
 	lb := len(b)
-	if lb <= 2 {
+	if lb <= 2 || b[0] != '"' || b[lb-1] != '"' {
 		return ErrInvalidUInt64Js
 	}
 
